@@ -166,6 +166,7 @@ type vfSess struct {
 	// expectReject: the direction written by this side carries a damaged
 	// preamble; its reader must deliver nothing (checked by the reject test).
 	expectReject [2]bool
+	verified     [2]int // bytes of each direction already compared equal
 	forcer       *vfForcer
 	oldRand      io.Reader
 }
@@ -311,6 +312,13 @@ func (s *vfSess) check(ctx string) {
 			}
 			s.fail(sig, "%s: handshake of side %v (real=%v) failed: %v", ctx, r.side, r.real, r.ep.SetupErr())
 		}
+		if gl := r.ep.GotLen(); !s.expectReject[i] && gl > 0 && gl == s.verified[i] && r.ep.ReadErr() == nil {
+			// nothing new was delivered since the last comparison (the log is
+			// append-only): only the expected length has to be re-checked
+			if exp := int(s.n.Released(w.side)) - w.pre; w.wrote && exp == gl {
+				continue
+			}
+		}
 		got := r.ep.Got()
 		if s.expectReject[i] {
 			if len(got) != 0 {
@@ -339,6 +347,7 @@ func (s *vfSess) check(ctx string) {
 			s.fail("c13-stream", "%s: direction %v->%v: %d bytes released, preamble (key+padding+magic) %d => reader must hold exactly %d plaintext bytes, holds %d; first difference at %d (reader real=%v, writer real=%v)",
 				ctx, w.side, r.side, rel, w.pre, exp, len(got), vfFirstDiff(got, w.sent[:exp]), r.real, w.real)
 		}
+		s.verified[i] = len(got)
 	}
 }
 
